@@ -319,13 +319,14 @@ def assign_draws(rec, M, outcomes):
     order = []  # backtracking
 
     def cond_diag(assigned, name):
+        """(conditional reduced diagonal, probability of the conditioning event)"""
         rr = r
         for n, o in assigned:
             rr = ref.project(rr, dims, names.index(n), o)
         tr = np.trace(rr).real
         if tr < 1e-14:
-            return None
-        return ref.diag_probs(rr, dims, names.index(name)) / tr
+            return None, tr
+        return ref.diag_probs(rr, dims, names.index(name)) / tr, tr
 
     best = {"n": -1, "msg": None}
 
@@ -342,11 +343,12 @@ def assign_draws(rec, M, outcomes):
         for m in cands:
             if outcomes.get(m) != d["idx"]:
                 continue
-            cd = cond_diag(assigned, m)
+            cd, ptr = cond_diag(assigned, m)
             if cd is None:
                 continue
             err = float(np.max(np.abs(cd - pn)))
-            if err <= 1e-7:
+            # conditioning on an unlikely earlier outcome divides by its probability: rounding errors grow with 1/p
+            if err <= 1e-7 + 1e-13 / max(ptr, 1e-14):
                 res = bt(j + 1, assigned + [(m, d["idx"])], used | {m})
                 if res is not None:
                     return res
@@ -408,9 +410,10 @@ def judge_measure(rec, prop):
         for mode, det in problems:
             out.append(V(prop, "violated", mode, det, cell=cell, ndraws=len(rec.draws), **sig))
         if not problems:
-            if e["prob"] < 1e-12:
-                out.append(V(prop, "violated", "zero-prob-outcome", f"outcomes {known} have probability {e['prob']:.3g}", cell=cell, **sig))
-            else:
+            # every drawn index matched the reference conditional distribution, so it had non-zero probability there
+            # (the joint probability of several unlikely outcomes may legitimately be tiny); what remains to be
+            # checked are the outcomes reported WITHOUT a draw
+            if True:
                 # members without a draw must be deterministic
                 drawn = {n for n, _ in asg}
                 r, dims = rho_pre(rec, names)
@@ -421,9 +424,9 @@ def judge_measure(rec, prop):
                         rr = ref.project(rr, dims, names.index(n), o)
                 tr = np.trace(rr).real
                 for n, o in known.items():
-                    if n not in drawn and tr > 1e-14:
+                    if n not in drawn and tr > 1e-9:
                         cd = ref.diag_probs(rr, dims, names.index(n)) / tr
-                        if o >= len(cd) or cd[o] < 1 - 1e-7:
+                        if o >= len(cd) or cd[o] < 1 - 1e-7 - 1e-13 / tr:
                             bad = f"{n} reported {o} without a random draw although its conditional distribution is {np.round(cd, 6).tolist()}"
                 if bad:
                     out.append(V(prop, "violated", "missing-draw", bad, cell=cell, **sig))
@@ -466,8 +469,11 @@ def judge_measure(rec, prop):
     if gd != e["dims"]:
         return out + [V(prop, "violated", "post-dims", f"{gd} vs {e['dims']}", cell=cell, **sig)]
     err = ref.maxdiff(got, e["rho"])
-    if err > S.EXACT_TOL:
-        out.append(V(prop, "violated", "wrong-collapse", f"maxabs={err:.3g}", cell=cell, **sig))
+    if e["prob"] < 1e-9:
+        return out + [V(prop, "inconclusive", "tiny-branch", f"p={e['prob']:.3g}", cell=cell, **sig)]
+    # the collapsed state is divided by the outcome probability: rounding errors grow with 1/p
+    if err > S.EXACT_TOL + 1e-13 / e["prob"]:
+        out.append(V(prop, "violated", "wrong-collapse", f"maxabs={err:.3g} (p={e['prob']:.3g})", cell=cell, **sig))
     else:
         out.append(V(prop, "held", cell=cell, **sig))
     return out
@@ -583,6 +589,7 @@ def judge_c09(rec):
     if any(v["status"] == "violated" and v["mode"] in ("nondestructive-destroyed", "bystander-destroyed", "unexpected-outcome-key") for v in out):
         return out
     # expected state of survivors: project partners that were reported, trace out everything destroyed
+    pk = float(exp["probs"][k] / max(exp["probs"].sum(), 1e-300))
     r = rk
     for n, o in others.items():
         if n in names and n not in tg:
@@ -596,6 +603,7 @@ def judge_c09(rec):
                 out.append(V("C09", "violated", "zero-prob-outcome", f"partner {n}={o} has probability {tr:.3g}", cell=cell, **sig))
                 return out
             r = r / tr
+            pk *= tr
     keep = [n for n in names if n not in gone]
     want = ref.reduced(r, dims, [names.index(n) for n in keep])
     try:
@@ -603,8 +611,10 @@ def judge_c09(rec):
     except Malformed as e:
         return out + [V("C09", "violated", "post-unreadable", str(e), cell=cell, **sig)]
     err = ref.maxdiff(got, want)
-    if err > S.EXACT_TOL:
-        out.append(V("C09", "violated", "wrong-post-state", f"maxabs={err:.3g}", cell=cell, **sig))
+    if pk < 1e-9:
+        return out + [V("C09", "inconclusive", "tiny-branch", f"p={pk:.3g}", cell=cell, **sig)]
+    if err > S.EXACT_TOL + 1e-13 / pk:
+        out.append(V("C09", "violated", "wrong-post-state", f"maxabs={err:.3g} (p={pk:.3g})", cell=cell, **sig))
     if not any(v["status"] == "violated" for v in out):
         out.append(V("C09", "held", cell=cell, **sig))
     return out
